@@ -528,6 +528,8 @@ def observe(hcli, pdir, cfg, message, fill_mode, backend, tag):
                                                           "refusing to overwrite it", "cannot create migration version",
                                                           "invalid migration plan"))
     o["rev_noterm"] = rc != 0 and "not a terminal" in err
+    o["rev_fk_refusal"] = rc != 0 and "Cannot add non-nullable foreign key column" in err
+    o["fk_refusal_due"] = bool(missing.get("fk_refusal_due")) if missing.get("planned") else None
     grev = "OR_err"
     wrote = None
     if rc == 0 and ("No changes detected." in out) and not added and not changed:
@@ -586,6 +588,13 @@ def oracle_c13(row, post):
         noterm = o["rev_noterm"]
         if reports and not (wrote or refused or noterm):
             fails.append(("diff_iff_revision", None, "diff lists changes but revision neither wrote nor refused (rc=%s)" % o["rev_rc"]))
+        # the foreign-key refusal must be given exactly when a NOT NULL, default-less column that IS a foreign key is added
+        due = o.get("fk_refusal_due")
+        if due is not None and reports:
+            if o.get("rev_fk_refusal") and not due:
+                fails.append(("diff_iff_revision", None, "diff lists changes; revision refuses with the foreign-key message although no added NOT NULL column without default carries a foreign key"))
+            if due and wrote:
+                fails.append(("diff_iff_revision", None, "revision wrote a migration that adds a NOT NULL foreign-key column without default (the explicit refusal is due)"))
         if not reports and o["rev"] != "nothing":
             fails.append(("diff_iff_revision", None, "diff finds nothing but revision did not answer 'nothing' (%s)" % o["rev"]))
         s = o["sql"]
@@ -753,6 +762,47 @@ def fill_streams():
     return out
 
 
+def fkname_streams():
+    """one pending edit that adds same-named columns to two existing tables: one gets a foreign key (inline / object /
+    table-level; nullable or NOT NULL with default), the other is NOT NULL without default and WITHOUT a foreign key (the
+    refusal `non-nullable foreign key column` is keyed by (table, column): it must not fire); and the mirrored case where
+    the NOT NULL default-less column IS the foreign-key column (the refusal is due).  (name, [step0, step1], revision input)"""
+    ID = {"name": "id", "type": "integer", "nullable": False, "primary_key": True}
+
+    def t(name, *cols, cons=None):
+        d = {"name": name, "columns": [ID] + list(cols)}
+        if cons:
+            d["constraints"] = cons
+        return d
+
+    def fkcol(kind, nullable, default):
+        c = {"name": "user_id", "type": "integer", "nullable": nullable}
+        if default is not None:
+            c["default"] = default
+        cons = None
+        if kind == "inline":
+            c["foreign_key"] = "users.id"
+        elif kind == "object":
+            c["foreign_key"] = {"ref_table": "users", "ref_columns": ["id"]}
+        else:
+            cons = [{"type": "foreign_key", "columns": ["user_id"], "ref_table": "users", "ref_columns": ["id"]}]
+        return c, cons
+    plain = {"name": "user_id", "type": "integer", "nullable": False}
+    base = {"users.json": t("users"), "orders.json": t("orders"), "audit_log.json": t("audit_log")}
+    out = []
+    for kind in ("inline", "object", "table"):
+        for nullable, default in ((True, None), (False, 0)):
+            for mode in ("all", "none", "pty"):
+                c, cons = fkcol(kind, nullable, default)
+                step1 = {"users.json": t("users"), "orders.json": t("orders", c, cons=cons), "audit_log.json": t("audit_log", plain)}
+                out.append(("fkname-%s-%s-%s" % (kind, "null" if nullable else "dflt", mode), [base, step1], mode))
+        # mirrored: the NOT NULL default-less column is the foreign-key column itself
+        c, cons = fkcol(kind, False, None)
+        step1 = {"users.json": t("users"), "orders.json": t("orders", c, cons=cons), "audit_log.json": t("audit_log", {"name": "user_id", "type": "integer", "nullable": True})}
+        out.append(("fkname-%s-mirrored" % kind, [base, step1], "all"))
+    return out
+
+
 def run_fill_stream(hcli, base, idx, spec, seed):
     name, steps, mode = spec
     rng = random.Random(seed * 31 + idx)
@@ -781,7 +831,7 @@ def run_fill_stream(hcli, base, idx, spec, seed):
 
 
 def run_fill_streams(hcli, base, seed):
-    specs = fill_streams()
+    specs = fill_streams() + fkname_streams()
     rows = []
     with ThreadPoolExecutor(max_workers=12) as ex:
         for r in ex.map(lambda ie: run_fill_stream(hcli, base, ie[0], ie[1], seed), list(enumerate(specs))):
@@ -885,7 +935,7 @@ def c12_part(tier, seed):
             bad.append((r, "after `revision` wrote %s, `diff` still lists %d change(s)" % (o["wrote"]["file"], len(po["diff"][1]))))
     import collections
     fm = collections.Counter("%s/%s" % (r["config"].get("migrationFormat"), r["config"].get("modelFormat")) for r in rows if r["obs"]["rev"] == "wrote")
-    details = {"streams": len(fill_streams()), "observations": len(rows), "revisions_written": wrote,
+    details = {"streams": len(fill_streams()) + len(fkname_streams()), "observations": len(rows), "revisions_written": wrote,
                "written_by_migration_format/model_format": dict(fm), "failures": [(r["tag"], t) for r, t in bad][:10]}
     fi = None
     if bad:
